@@ -114,14 +114,23 @@ def run(ctx):
             if not (payload.endswith('.identifier.clone()') or payload in ('%s.clone()' % id_var, id_var)):
                 r.fail('%s:%s:DefineNoArgs' % (CRATE, name), where(na[0]),
                        'DefineNoArgs must carry the macro\'s name; it carries `%s`' % payload)
-            host = [n for n in sx.walk(body) if n.get('k') == 'if' and any(y is na[0] for y in sx.walk(n['t']))]
+            in_loop = [n for n in sx.walk(body) if n.get('k') in ('for', 'while', 'loop') and any(y is na[0] for y in sx.walk(n['body']))]
+            if in_loop:
+                r.fail('%s:%s:DefineNoArgs' % (CRATE, name), where(na[0]),
+                       'DefineNoArgs is raised inside the loop over the formals (`%s`): it then depends on a formal without a usable value, so a macro whose formals '
+                       'all have defaults is expanded when its argument list is omitted instead of being reported' % sq(in_loop[0].get('e') or {})[:50])
+            host = [n for n in sx.walk(body) if n.get('k') == 'if' and any(y is na[0] for y in sx.walk(n['t']))] if not in_loop else []
             c = sq(host[-1]['c']) if host else ''
+            if in_loop:
+                c = None
             def conjuncts(e_):
                 if e_.get('k') == 'binary' and e_['op'] == '&&':
                     return conjuncts(e_['l_']) + conjuncts(e_['r'])
                 return [sq(e_)]
             conj = conjuncts(host[-1]['c']) if host else []
-            if host and 'arguments.is_empty()' in c and 'no_args' in c:
+            if c is None:
+                pass
+            elif host and 'arguments.is_empty()' in c and 'no_args' in c:
                 has_formals = any(x.startswith('!') and 'arguments.is_empty()' in x for x in conj)
                 no_list = any(x == 'no_args' for x in conj)
                 if not (has_formals and no_list):
